@@ -5,12 +5,13 @@ import os
 
 class ClassSchema:
 
-  def __init__(self, name, fields, frozen=False, invariant=(), lazy=(), on_new=None, on_field=None):
+  def __init__(self, name, fields, frozen=False, invariant=(), lazy=(), on_new=None, on_field=None, ghost=()):
     self.name, self.fields, self.frozen = name, dict(fields), frozen
     self.invariant = list(invariant)
     self.lazy = {k: True for k in lazy}
     self.on_new = on_new          # hook(interp, obj): ghost definitions for a constructed object
     self.on_field = on_field      # hook(interp, obj, field): when a lazy field is first read
+    self.ghost = set(ghost)       # ghost fields: not copied by dataclasses.replace (re-defined by on_new)
 
 
 class Contract:
